@@ -14,7 +14,7 @@ LEVEL = "proof"
 FUNCS = G.REDUCE_FUNCS + G.BOOL_FUNCS
 
 
-def make_case(func, vals, labels, chunks, reindex, split_every, fill=None, method="map-reduce"):
+def make_case(func, vals, labels, chunks, reindex, split_every, fill=None, method="map-reduce", min_count=None):
     c = {
         "func": func, "vals": vals, "labels": labels, "expected": [0, 1] if 1 in labels or fill is not None else [0],
         "chunks": [list(chunks)], "method": method, "reindex": reindex, "engine": "numpy",
@@ -25,6 +25,9 @@ def make_case(func, vals, labels, chunks, reindex, split_every, fill=None, metho
         c["vals"] = [bool(v) if not isinstance(v, str) else True for v in vals]
     if fill is not None:
         c["fill_value"] = fill
+    if min_count is not None:
+        c["min_count"] = min_count
+        c.setdefault("fill_value", -7)
     if func in ("var", "nanvar", "std", "nanstd"):
         c["ddof"] = 0
     return c
@@ -57,7 +60,9 @@ def gen_cases(rng, n, funcs=FUNCS):
         fill = rng.choice([None, None, -7]) if set(labels) == {0, 1} or not two else -7
         if not two:
             fill = rng.choice([None, -7])
-        cases.append(make_case(func, vals, labels, chunks, rng.choice([True, False]), rng.choice([2, 4]), fill))
+        cases.append(make_case(func, vals, labels, chunks, rng.choice([True, False]), rng.choice([2, 4]), fill,
+                               method=rng.choice(["map-reduce", "map-reduce", "cohorts"]),
+                               min_count=rng.choice([None, None, None, 1, 2, 3])))
     return cases
 
 
@@ -69,6 +74,8 @@ def exhaustive_cases(alphabet, maxlen, funcs):
             for vals in itertools.product(alphabet, repeat=m):
                 for chunks in G.compositions(m, 3):
                     yield make_case(func, list(vals), [0] * m, chunks, True, 2, None)
+                    if m >= 2:
+                        yield make_case(func, list(vals), [0] * m, chunks, False, 2, None, min_count=2)
                 # group 0's members interleaved with a block owned by group 1 (= empty part for group 0)
                 for pos in range(m + 1):
                     v2 = list(vals[:pos]) + [1] + list(vals[pos:])
